@@ -190,9 +190,12 @@ class CHECK(Check):
     level_text = ("Theorems: for every descriptor, an entry point accepts iff the descriptor is well formed; each listed defect "
                   "(length mismatch in any argument position, label outside {0,1}, missing sensitive feature, degenerate group, "
                   "unsupported combination, control features for ThresholdOptimizer, both bounds / ratio outside (0,1], bad costs, "
-                  "constraint_weight outside [0,1], duplicate or non-string names, predict before fit) forces rejection; the "
+                  "constraint_weight outside [0,1], duplicate or non-string names, predict before fit for EVERY prediction "
+                  "entry point in the lifted guard table, prediction-time sensitive features of the wrong length / missing for "
+                  "ThresholdOptimizer, sample_params that is no dict / names an unknown metric / holds a non-dict) forces rejection; the "
                   "constraint x objective table, the bounds/costs/weight conditions and the degenerate-label guard are generated "
-                  "from the source. Tie: one-defect malformed stream and valid stream through MetricFrame, the six moments' "
+                  "from the source, as are the check_is_fitted guard of every prediction entry point, the keyword values of the "
+                  "prediction-time _validate_and_reformat_input call and the sample_params checks of MetricFrame. Tie: one-defect malformed stream and valid stream through MetricFrame, the six moments' "
                   "load_data, ExponentiatedGradient/GridSearch/ThresholdOptimizer.fit, the constructors, CorrelationRemover and "
                   "predict-before-fit of every estimator, in list/ndarray/Series/DataFrame/dict containers.")
     design_ref = "DESIGN.md section 4, C20"
@@ -207,7 +210,11 @@ class CHECK(Check):
             "omitted) / missing y, a group lacking one label (ThresholdOptimizer), unsupported or unknown constraint/objective, "
             "control features for ThresholdOptimizer, both bounds, ratio_bound outside (0,1], bad cost dicts, constraint_weight "
             "outside [0,1], duplicate / non-string feature names, predict or transform before fit, unknown sensitive column for "
-            "CorrelationRemover; about 40% of the cases carry no defect (must be accepted); distinct = distinct case; non-trivial = all")
+            "CorrelationRemover; every prediction entry point (predict, predict_proba, _pmf_predict, transform, _raw_predict of "
+            "TO, InterpolatedThresholder, EG, GS, CorrelationRemover, adversarial classifier and regressor) before fit in every "
+            "run; ThresholdOptimizer.predict/_pmf_predict with sensitive_features off by k or None (fitted and unfitted) in "
+            "every vector container; MetricFrame sample_params: None, valid, {}, list/tuple/str/number/[] instead of a dict, a key "
+            "that is no metric name, a per-metric list/number/str; about 40% of the cases carry no defect (must be accepted); distinct = distinct case; non-trivial = all")
     explanation = ("decision logic proved in Lean over generated tables/conditions; correspondence: outcome class (ok / exception "
                    "kind) of the real call vs the compiled model on the call's descriptor; oracle: independent Python predicate "
                    "of well-formedness on the arguments as rendered; violation = ok on an ill-formed call (or a prediction "
